@@ -351,6 +351,23 @@ def gen(rng, tier):
         out.append(Case('bwd', "la.bwd %s %s" % (show_pts(Um), show_list(b)), dict(U=Um, y=b)))
         a = F(rng.randint(-3, 3)); bb = a + F(rng.randint(1, 9), rng.choice([1, 2, 3])); m = rng.randint(1, 30)
         out.append(Case('linspace', "linspace %s %s %d" % (fr(a), fr(bb), m), dict(a=a, b=bb, m=m)))
+    # ---- geometric helpers (oracle only): distance, angle, triangle centre / normal
+    for _ in range(40 if not thorough else 400):
+        r = rng.random()
+        if r < .35:
+            base = rng.choice(PYTH); sc = F(rng.randint(1, 9), rng.choice([1, 2, 4, 8, 3]))
+            dv = [sc * x * rng.choice([1, -1]) for x in base]
+            if rng.random() < .3:
+                dv = vec(rng, len(dv))
+            p1 = vec(rng, len(dv))
+            out.append(Case('pdist', None, dict(p1=p1, p2=[a_ + b_ for a_, b_ in zip(p1, dv)], bad=(rng.random() < .1))))
+        elif r < .6:
+            n = rng.choice([2, 3, 3])
+            v, w = vec(rng, n), vec(rng, n)
+            if any(v) and any(w):
+                out.append(Case('angle', None, dict(v=v, w=w, deg=(rng.random() < .5))))
+        else:
+            out.append(Case('tri', None, dict(pts=[vec(rng, 3) for _ in range(3)], uvs=[vec(rng, 2) for _ in range(3)])))
     return out
 
 
@@ -592,6 +609,50 @@ def oracle(c):
                     return "call %d of %d (%s) answers %s after the preceding calls and %s on its own" % (i + 1, len(ops), o['call'], h, a)
         return known
     _fresh()
+    if k == 'pdist':
+        p1, p2 = d['p1'], d['p2']
+        if d.get('bad'):
+            try:
+                linalg.point_distance(qs(p1), qs(p2 + [F(1)]))
+            except ValueError:
+                return None
+            return "point_distance accepts points of different dimension"
+        got = F(fr(linalg.point_distance(qs(p1), qs(p2))))
+        sq = sum(((a - b) ** 2 for a, b in zip(p1, p2)), F(0))
+        if got < 0 or abs(got * got - sq) > F(1, 10 ** 12) * max(sq, F(1)):
+            return "point_distance %s is not the Euclidean distance (square %s)" % (fr(got), fr(sq))
+        return None
+    if k == 'angle':
+        v, w = d['v'], d['w']
+        got = float(linalg.vector_angle_between(qs(v), qs(w), degrees=d['deg']))
+        dot = sum((a * b for a, b in zip(v, w)), F(0))
+        nv = math.sqrt(sum((a * a for a in v), F(0))); nw = math.sqrt(sum((a * a for a in w), F(0)))
+        want = math.acos(max(-1.0, min(1.0, float(dot) / (nv * nw))))
+        if d['deg']:
+            want = math.degrees(want)
+        if abs(got - want) > 1e-6 * max(1.0, abs(want)):
+            return "vector_angle_between gives %r, the angle is %r (%s)" % (got, want, 'degrees' if d['deg'] else 'radians')
+        return None
+    if k == 'tri':
+        from geomdl import elements
+        vs = []
+        for i, (p, uv) in enumerate(zip(d['pts'], d['uvs'])):
+            vtx = elements.Vertex(*qs(p)); vtx.uv = qs(uv); vtx.id = i
+            vs.append(vtx)
+        tri = elements.Triangle(*vs)
+        cen = [F(fr(x)) for x in linalg.triangle_center(tri)]
+        if cen != [sum((p[j] for p in d['pts']), F(0)) / 3 for j in range(3)]:
+            return "triangle_center is not the mean of the three vertices"
+        cuv = [F(fr(x)) for x in linalg.triangle_center(tri, uv=True)]
+        if cuv != [sum((p[j] for p in d['uvs']), F(0)) / 3 for j in range(2)]:
+            return "triangle_center(uv=True) is not the mean of the three parameter pairs"
+        nrm = [F(fr(x)) for x in linalg.triangle_normal(tri)]
+        a, b, c_ = d['pts']
+        e1 = [y - x for x, y in zip(a, b)]; e2 = [y - x for x, y in zip(b, c_)]
+        want = [e1[1] * e2[2] - e1[2] * e2[1], e1[2] * e2[0] - e1[0] * e2[2], e1[0] * e2[1] - e1[1] * e2[0]]
+        if nrm != want:
+            return "triangle_normal is not the cross product of the edges"
+        return None
     if k == 'dot':
         v, w = d['v'], d['w']
         got = F(fr(linalg.vector_dot(qs(v), qs(w))))
